@@ -376,8 +376,8 @@ func (p *Prog) hostEnvNeutralises(f *Func, hostExpr ast.Expr, k string, entries 
 				}
 				return true
 			})
-			// the filter must drop matching entries: a `continue` (or no append) under the match
-			drops := false
+			// the filter must drop matching entries: a `continue` under the match, or slices.DeleteFunc
+			drops := p.callsAny(ff, "slices.DeleteFunc")
 			ast.Inspect(ff.Body, func(x ast.Node) bool {
 				if ifs, ok := x.(*ast.IfStmt); ok {
 					for _, st := range ifs.Body.List {
